@@ -1,3 +1,4 @@
+pub mod clisim;
 pub mod configsim;
 pub mod crashsim;
 pub mod gitsim;
@@ -11,7 +12,7 @@ pub mod wcsim;
 use crate::core::runner::Engine;
 
 pub fn all() -> Vec<Box<dyn Engine>> {
-    vec![Box::new(tablesim::TableSim), Box::new(reposim::RepoSim), Box::new(wcsim::WcSim), Box::new(tasksim::TaskSim), Box::new(hashsim::HashSim), Box::new(configsim::ConfigSim), Box::new(gitsim::GitSim), Box::new(pushsim::PushSim)]
+    vec![Box::new(tablesim::TableSim), Box::new(reposim::RepoSim), Box::new(wcsim::WcSim), Box::new(tasksim::TaskSim), Box::new(hashsim::HashSim), Box::new(configsim::ConfigSim), Box::new(gitsim::GitSim), Box::new(pushsim::PushSim), Box::new(clisim::CliSim)]
 }
 
 pub fn by_name(name: &str) -> Option<Box<dyn Engine>> {
